@@ -476,10 +476,12 @@ assumes of the source.) -/
 def returnOK (g : GateFact) (r : ReturnFact) : Bool :=
   r.expr = "nil" ||
   (r.expr = "Anonymous()" && r.conds = ["h.authenticateFunc == nil"]) ||
-  (r.expr = g.ctxVar && r.conds = [] && g.ctxVar != "")
+  (r.expr = g.ctxVar && g.ctxVar != "" &&
+    -- the fall-through after `if err != nil { …; return nil }`, or directly under `if err == nil`
+    ((r.conds = [] && g.errBranchExit) || r.conds = [g.errVar ++ " == nil"]))
 
 def gateOK (g : GateFact) : Bool :=
-  g.callTopLevel && g.errBranchExit && g.returns.all (returnOK g)
+  g.callTopLevel && g.returns.all (returnOK g)
 
 def TableOK (T : Table) : Prop :=
   (∀ r ∈ T.routes, routeOK T r = true) ∧ (∀ d ∈ T.direct, directOK d = true) ∧ gateOK T.gate = true
